@@ -223,7 +223,7 @@ def check_siblings(case, ctx):
     if "no-coalesce-value-failure" in ctx.flags:
         pspec = copy.deepcopy(spec)
         pspec["root"] = {"k": "ref", "name": x["name"]}
-        if any("coalesce-absorbed-value-failure" in Ref(pspec).run(effective(sib_layers[i], o)).labels for i, o in hist):
+        if any("absorbed-under-cache" in Ref(pspec).run(effective(sib_layers[i], o)).labels for i, o in hist):
             ctx.exclude("no-coalesce-value-failure")
             ctx.done(case, False, ["excluded-K6"])
             return
